@@ -74,8 +74,8 @@ LockIds == {MU} \cup Ids          \* the per-session mutex is named by the sessi
     variables calls = 0, op = "", id = "", found = FALSE, st = "";
   {
    c0: while (calls < MaxCalls) {
-         calls := calls + 1;
-         either { await alloc # Ids; op := "create" }
+         calls := calls + 1; found := FALSE; st := "";
+         either { await alloc # Ids; op := "create"; id := "" }
          or { with (o \in {"get", "step", "delete"}, i \in Ids) { op := o; id := i } };
    c1:   if (op = "create") {
    cr_cas:  with (i \in Ids \ alloc) { id := i; alloc := alloc \cup {i} };          \* cm.nr CAS loop
@@ -211,19 +211,20 @@ Init == (* Global variables *)
 c0(self) == /\ pc[self] = "c0"
             /\ IF calls[self] < MaxCalls
                   THEN /\ calls' = [calls EXCEPT ![self] = calls[self] + 1]
+                       /\ found' = [found EXCEPT ![self] = FALSE]
+                       /\ st' = [st EXCEPT ![self] = ""]
                        /\ \/ /\ alloc # Ids
                              /\ op' = [op EXCEPT ![self] = "create"]
-                             /\ id' = id
+                             /\ id' = [id EXCEPT ![self] = ""]
                           \/ /\ \E o \in {"get", "step", "delete"}:
                                   \E i \in Ids:
                                     /\ op' = [op EXCEPT ![self] = o]
                                     /\ id' = [id EXCEPT ![self] = i]
                        /\ pc' = [pc EXCEPT ![self] = "c1"]
                   ELSE /\ pc' = [pc EXCEPT ![self] = "Done"]
-                       /\ UNCHANGED << calls, op, id >>
+                       /\ UNCHANGED << calls, op, id, found, st >>
             /\ UNCHANGED << alloc, ingesters, cancels, state, started, 
-                            cancelled, offers, lock, acc, nilcall, found, st, 
-                            err >>
+                            cancelled, offers, lock, acc, nilcall, err >>
 
 c1(self) == /\ pc[self] = "c1"
             /\ IF op[self] = "create"
